@@ -82,7 +82,9 @@ CLAIMED = {
         "scriptPubKey size limit, P2SH redeem script from the scriptSig's stack) - same final environment and status. The same for witness inputs: "
         "a witness session never takes the P2SH branch, a witness-v0/tapscript script session is one evaluation of the committed script, and a "
         "P2TR script-path session is the BIP341 commitment check followed - only if it holds - by one evaluation of the revealed script with the "
-        "leaf hash installed (C03_tapscript_session_is_commitment_then_one_evaluation). The session outcome is additionally tied by "
+        "leaf hash installed (C03_tapscript_session_is_commitment_then_one_evaluation). The BIP16 / SIGPUSHONLY rule applied at set-up is "
+        "characterised exactly (C03_push_only_rule: refused iff a scriptPubKey follows, the scriptSig is not made of push operations - no "
+        "opcode above OP_16, decodes completely - and SIGPUSHONLY is set or the output is P2SH under the P2SH flag). The session outcome is additionally tied by "
         "correspondence: synthesised pairs of every output type, signed by an independent signer, valid and corrupted, 1..3 inputs, --select, "
         "flag variations, and the six doc/txs pairs; implementation vs model on every case and vs validity-by-construction.",
    note=TB + "Elliptic-curve predicates are an oracle of the model answered by tools/refcrypto.py (independent pure-Python secp256k1); digests are modelled in Sighash.v and cross-checked by tools/gen_spend.py's independent implementation. Known finding F31 (multi-input taproot).",
@@ -112,7 +114,8 @@ CLAIMED = {
    text="Theorems pin the GENERATED comparison operator and constant of every limit check (Gen/Sites.v, Gen/Consts.v, regenerated from the "
         "source each run) to the consensus bounds: 520 / 201 / 1000 / 10000 / 20, counted-op threshold, tapscript exemption from the script "
         "size, 4/5-byte operand sizes and their integer ranges; step-level: over-long push always PUSH_SIZE, a successful step leaves <= 1000 "
-        "items, the 202nd counted op fails with OP_COUNT. A '>' turned '>=' or a changed constant breaks these proofs. Tie: boundary scripts "
+        "items, the 202nd counted op fails with OP_COUNT; the limits on the initial witness stack at set-up are characterised exactly (no item above "
+        "520 bytes in v0 and tapscript, at most 1000 items in tapscript, nothing for legacy: C10_witness_stack_limits). A '>' turned '>=' or a changed constant breaks these proofs. Tie: boundary scripts "
         "at L-1/L/L+1 per limit and route x 3 versions.",
    note=TB + "Exactness in the direction 'no other operation fails with that error' is covered by correspondence, not by a theorem.",
    technique="Coq proofs over translator-generated limit sites + boundary differential correspondence",
